@@ -425,7 +425,15 @@ fn udp_part(rep: &Arc<Reporter>, args: &Args) {
             rep.distinct(common::fnv(&pkt));
             let _ = relay.send_to(&pkt, local).await;
             let mut buf = vec![0u8; 1500];
-            let got = tokio::time::timeout(Duration::from_secs(2), assoc.recv_from(&mut buf)).await;
+            let got = { use futures::FutureExt; std::panic::AssertUnwindSafe(tokio::time::timeout(Duration::from_secs(2), assoc.recv_from(&mut buf))).catch_unwind().await };
+            let got = match got {
+                Ok(g) => g,
+                Err(_) => {
+                    let loc = common::LAST_PANIC_LOCATION.with(|l| l.borrow_mut().take()).unwrap_or_default();
+                    rep.violation("the UDP association panicked on a datagram from the relay", json!({"case":name,"packet":common::hex(&pkt),"panic_location":loc}));
+                    continue;
+                }
+            };
             match (got, want) {
                 (Ok(Ok((n, from))), Some((ws, wd))) => { if from != ws || n != wd.len() || buf[..n] != wd[..] { rep.violation("relayed UDP datagram unwrapped incorrectly", json!({"case":name})); } else { rep.tally("udp: unwrapped per RFC 1928 section 7", 1); } }
                 (Ok(Ok(_)), None) if name == "random bytes" => rep.tally("udp: random datagram happened to parse", 1),
